@@ -13,6 +13,7 @@ Conventions
 -/
 import OptiVerif.Model.Num
 import OptiVerif.Gen.OptDev
+import OptiVerif.Model.Filter
 
 set_option linter.unusedSectionVars false
 set_option linter.unusedVariables false
@@ -43,6 +44,10 @@ def x : Rows α → List α
 def Shaped (n : Nat) : Rows α → Prop
   | one a => a.length = n
   | two a b => a.length = n ∧ b.length = n
+/-- the rows as a list (`axis=-1` filtering treats every row alike) -/
+def toList : Rows α → List (List α)
+  | one a => [a]
+  | two a b => [a, b]
 end Rows
 
 /-- sample-wise sum of two values of the same shape (`signal + noise`) -/
@@ -62,6 +67,9 @@ def Field.total {α : Type} [Add α] (x : Field α) : Rows α :=
   match x.noise with
   | none => x.sig
   | some nz => x.sig.add nz
+
+/-- a field as the optical filter (C11 model) sees it -/
+def Field.toSig {α : Type} (x : Field α) : Filter.Sig α := ⟨x.sig.toList, x.noise.map Rows.toList⟩
 
 /-- the kinds of `el_input` the code distinguishes -/
 inductive Drive (R : Type) where
@@ -139,6 +147,14 @@ def mzm (pol : PolSel) (bias Vpi lossdB erdB : R) (d : Drive R) (x : Field (Cx R
   if pol = .other then .error .ValueError else
   let hs := (expand n us).map (mzmHu lossdB erdB Vpi bias)
   .ok ⟨mzmRows pol hs x.sig, x.noise.map (mzmRows pol hs)⟩
+
+/-- `MZM(..., BW=BW)`: `output = BPF(output, BW)` after the modulation.  The sections `secs` (with their `sosfilt_zi` rows)
+    and the pad length `edge` are what scipy produced for `Wn = BW/2` (spied, as in the C11 model `Filter.bpf`). -/
+def mzmBW (pol : PolSel) (bias Vpi lossdB erdB : R) (d : Drive R) (secs : List (Filter.Sec R)) (edge : Nat)
+    (x : Field (Cx R)) : Except Wire.Err (Filter.Sig (Cx R)) :=
+  match mzm pol bias Vpi lossdB erdB d x with
+  | .error e => .error e
+  | .ok y => Filter.bpf secs edge y.toSig
 
 /-! ### PM  (`devices.py` PM) -/
 
@@ -269,6 +285,7 @@ end W
 
 /- line protocol:
     `mod.mzm <x|y|other> <bias> <Vpi> <loss_dB> <ER_dB> <drive> <field>`,
+    `mod.mzmbw <x|y|other> <bias> <Vpi> <loss_dB> <ER_dB> <drive> <edge> <secs> <field>`  (reply in `Filter.fSig` layout),
     `mod.pm <Vpi> <drive> <field>`,
     `mod.laser <p> <fs> <phase?> <rin?> <df?> <t>`,
     `mod.lasersigma <lw> <dt> <rin> <fs>` -/
@@ -280,6 +297,16 @@ def handle : List String → Option String
         let d ← W.drive; let x ← W.field; pure (p, b, v, l, e, d, x)) args with
     | .error e => "bad-op " ++ e
     | .ok (p, b, v, l, e, d, x) => W.fRes (mzm p b v l e d x)
+  | "mod.mzmbw" :: args =>
+    some <| match Wire.run (do
+        let p ← W.polSel; let b ← Wire.float; let v ← Wire.float; let l ← Wire.float; let e ← Wire.float
+        let d ← W.drive; let edge ← Wire.nat; let secs ← Wire.list Filter.pSec; let x ← W.field
+        pure (p, b, v, l, e, d, edge, secs, x)) args with
+    | .error e => "bad-op " ++ e
+    | .ok (p, b, v, l, e, d, edge, secs, x) =>
+      match mzmBW p b v l e d secs edge x with
+      | .ok o => Wire.ok (Filter.fSig Wire.fCxList o)
+      | .error e => Wire.err e
   | "mod.pm" :: args =>
     some <| match Wire.run (do let v ← Wire.float; let d ← W.drive; let x ← W.field; pure (v, d, x)) args with
     | .error e => "bad-op " ++ e
